@@ -43,6 +43,7 @@ func main() {
 	commands["c06"] = runC06
 	commands["c05corpus"] = runC05Corpus
 	commands["hdrchain"] = runHdrChain
+	commands["dagopen"] = runDagOpen
 	commands["corpusdiff"] = runCorpusDiff
 	commands["c17"] = runC17
 	commands["c14hash"] = func(a []string) { initCollisions(); runC14Hash(a) }
